@@ -412,7 +412,7 @@ pub fn run(ctx: &Ctx, started: Instant) -> i32 {
     let thorough = ctx.tier == Tier::Thorough;
     let cases = all_cases(thorough);
     let total = cases.len();
-    let per_shard = ctx.tier.pick(500u32, 10_000);
+    let per_shard = ctx.tier.pick(4_000u32, 40_000);
     let stats = par_shards(WORKERS, |shard| {
         let mut st = Stats::default();
         let mine: Vec<Case> = cases.iter().enumerate().filter(|(i, _)| i % WORKERS == shard).map(|(_, c)| c.clone()).collect();
